@@ -13,6 +13,9 @@ def model_cfg(primes, maxk):
 
 
 def describe(e):
+    if e["op"] == "eqx":
+        return ("curve y^2=x^3+%dx+%d/F_%d and its sibling through the point %s: == / != over representation combinations gave %s"
+                % (e["c"]["a"], e["c"]["b"], e["c"]["p"], e.get("pt"), e.get("outs")))
     return "curve y^2=x^3+%dx+%d/F_%d: %s A=%s B=%s -> %s" % (e["c"]["a"], e["c"]["b"], e["c"]["p"], e["op"], e["A"]["t"],
                                                             e["B"]["t"], e["out"])
 
@@ -95,7 +98,9 @@ def run(ctx):
                 "representation (Z = 1, 2, 3, legacy affine), plus 10 structured curves up to F_263 (cofactor 2 and 4 included) "
                 "with P = Q / P = -Q in all Z-class combinations, doubly negated operands; TLC recomputes each result with the "
                 "chord-and-tangent law on the denoted points; every other pair takes its second operand from an equal but distinct "
-                "CurveFp object; the coefficient a is passed as residue or as the negative representative a - p; "
+                "CurveFp object; the coefficient a is passed as residue or as the negative representative a - p; the identity also as Jacobian "
+                "triples with Z = 0; == / != between the same coordinates on a sibling curve in every representation combination "
+                "(answer must not depend on the representation); "
                 "non-trivial = distinct (curve, op, operand triples)"
                 % (", 12 sampled curves over F_11" if quick else ", F_11, F_13 (F_11/F_13: 150 sampled pairs + all P=Q, P=-Q)"))
     ctx.exhaustive = False
